@@ -403,6 +403,9 @@ class Contract:
     invariant: Optional[Callable] = None  # object invariant over NSView(objs): assumed on entry, proved at
     # every call-out made through callout() and at exit
     differential = True  # compare the interpreter in concrete mode with CPython on sampled inputs
+    summaries: Dict[str, Callable] = {}  # callee contracts used instead of the callee's body in the deductive run
+    # only (modular verification: the callee is proved against the same statement by its own Contract); concrete
+    # runs always execute the real callee
     patch_classes: tuple = ()  # real classes whose call-out methods (keys "Cls.method" of calls) are intercepted
     # at class level during concrete runs
     trusted: List[str] = []
@@ -676,7 +679,7 @@ def symbolic_run(contract: Contract, tier="quick", mutate=None, stop_on=None) ->
         seen_known = set()
 
         def run(c: Context):
-            I = Interp(calls=contract.calls, loops=contract.loops, tag=contract.name)
+            I = Interp(calls=dict(contract.calls, **contract.summaries), loops=contract.loops, tag=contract.name)
             vals = {n: s.fresh(n) for n, s in contract.inputs.items()}
             i = Inputs(vals)
             req = contract.requires(i)
